@@ -14,14 +14,14 @@ DEFAULTS = {"potential mantle temperature": 1600.0, "surface temperature": 293.1
 
 
 def correspondence(seed, tier):
-    rs = [corr.run_corr(seed * 1000 + 30 + k, "C03_%d" % k, budget(tier, 30, 400), 20, {"with_random": False, "max_features": 2}) for k in range(budget(tier, 1, 2))]
+    rs = [corr.run_corr(seed * 1000 + 30 + k, "C03_%d" % k, budget(tier, 30, 400), 20, {"with_random": False, "max_features": 2, "with_lines": True}) for k in range(budget(tier, 1, 2))]
     return summarize_corr(rs)
 
 
 def oracle(seed, tier):
     rng = random.Random(seed * 611953 + 3)
     wdir = proto.workdir("C03_oracle")
-    worlds = gen_worlds(rng, wdir, "o", budget(tier, 25, 300), {"with_random": False, "max_features": 2})
+    worlds = gen_worlds(rng, wdir, "o", budget(tier, 25, 300), {"with_random": False, "max_features": 2, "with_lines": True})
     viol, cases, nontriv, samples = [], 0, 0, []
     lines, meta = [], []
     for wi, (path, w, g) in enumerate(worlds):
